@@ -591,11 +591,9 @@ pub fn run(thorough: bool) -> Report {
         ("core", &core, 4, 1),
         ("loop", &lp, 5, 1),
         ("nest", &nest, 5, 1),
-        ("nest", &nest, 6, 0),
         ("data", &data, 5, 1),
         ("data", &data, 6, 0),
         ("fn", &fnm, 4, 1),
-        ("fn", &fnm, 5, 0),
         ("array", &arr, 4, 1),
         ("branch", &brm, 4, 2),
         ("branch", &brm, 5, 0),
